@@ -38,6 +38,8 @@ def _cmod(cipher):
 def _prim(cipher, key, prim, eff=None):
     from spec import ref_modes
     bs = _bc.BLOCK[cipher]
+    if cipher == 'ARC2' and eff is None:
+        eff = 1024                      # the library's documented default effective_keylen
     if prim == 'ref':
         r = _bc._ref(cipher, bytes(key), eff)
         return ref_modes.BC(bs, r.encrypt_block, r.decrypt_block)
@@ -395,6 +397,16 @@ def k_buf(name, n, what, inp, out, aadlen=0, keytype='bytes'):
             return 'aad unmodified', 'aad modified'
     x = _wrap(src, inp if out != 'inplace' else ('memoryview_rw' if inp.startswith('memoryview') else inp if inp.startswith('mv_off') else 'bytearray'))
     f = o.encrypt if what == 'enc' else o.decrypt
+    sivtag = []
+    if c.get('siv'):
+        if what == 'enc':
+            def f(x, output=None):
+                r, t = o.encrypt_and_digest(x, output=output)
+                sivtag.append(t)
+                return r
+        else:
+            def f(x, output=None):
+                return o.decrypt_and_verify(x, _wrap(tag, 'bytearray'), output=output)
     has_out = 'output' in inspect.signature(f).parameters
     if out == 'none' or not has_out:
         if out != 'none':
@@ -420,7 +432,9 @@ def k_buf(name, n, what, inp, out, aadlen=0, keytype='bytes'):
         if bytes(x) != src:
             return 'input unmodified', 'input modified'
     t = None
-    if c.get('aead'):
+    if c.get('siv'):
+        t = sivtag[0] if what == 'enc' else None
+    elif c.get('aead'):
         if what == 'enc':
             t = o.digest()
         else:
@@ -687,16 +701,13 @@ def t_seg(rec, rnd, tier, name, what):
                       {'aad': 'update() cache of the mode', 'enc': 'encrypt() keystream/cache handling', 'dec': 'decrypt() keystream/cache handling'}[what] + ' (' + name + ')')
     special = {0, 1, 15, 16, 17, 63, 64, 65, 127, 128, 129, 191, 192, 193, 255, 256, 257}
     for n in range(0, maxn + 1):
-        if c.get('siv') and what != 'aad':
+        if n % c.get('align', 1):
             continue
         three = n <= 67
         restrict = None
         if n > 67 and n in (128, 129, 192, 193, 259):
             three = True
             restrict = special | {n - 1, n}
-        if c.get('siv'):
-            # components are a list: segmentation of update() is NOT expected to be neutral; instead split the plaintext never
-            continue
         if restrict is not None:
             for cut in _cuts(n, False, c.get('align', 1)):
                 rec.case(cid, 'seg', name=name, n=n if what != 'aad' else 20, cuts=cut, what=what, aadlen=n if what == 'aad' else (13 if c.get('aead') else 0))
